@@ -88,6 +88,7 @@ type Script struct {
 	Dir    string `json:"dir"`
 	Seed   int64  `json:"seed"`
 	TickMs int64  `json:"tick_ms"` // length of one unit of model time (default 1000: whole seconds)
+	Look   bool   `json:"lookalike"`
 	Ops    []J    `json:"ops"`
 }
 
@@ -110,6 +111,7 @@ func runScript(scriptPath, tracePath string) {
 	}
 	w := &World{driver: sc.Driver, dir: sc.Dir, seed: sc.Seed, tr: tr}
 	w.names = newNames(sc.Seed)
+	w.names.lookalike = sc.Look
 	w.clock = Clock{epoch: time.Now()}
 	for k, op := range sc.Ops {
 		name := str(op, "op")
